@@ -13,7 +13,8 @@ package main
 //                   providers and among the dispensation recipients, ratio shifting (float code),
 //                   liquidity protection, conflicting bridge claims with tied power, locks/burns,
 //                   dispensation create/run/claim, margin open/close/force-close with price moves,
-//                   registry and admin messages
+//                   registry and admin messages; in every block one or two transactions that FAIL inside a handler after
+//                   gas-charged work (every module; two-message transactions whose second message fails)
 //   dewhitelist-tie three conflicting claims of equal power whose claimants are partly removed from
 //                   the whitelist before the deciding claim (order of the Go map decides the final
 //                   claim on a tree without the F2 repair)
@@ -189,6 +190,13 @@ func mainHistory(seed uint64, rng *Rng, blocks int) *Pilot {
 			p.AdminPolicies(1)
 		case b == 2*blocks/3:
 			p.AdminPolicies(2)
+		}
+		// transactions that fail inside a handler after gas-charged work: one or two per block, all modules
+		for i := 1 + p.R.Intn(2); i > 0; i-- {
+			p.FailingShape()
+		}
+		if b%5 == 0 {
+			p.FailingDistribution()
 		}
 		k := 3 + p.R.Intn(6)
 		for i := 0; i < k && len(ps) > 0; i++ {
